@@ -49,6 +49,7 @@ type ctype struct {
 	apply func(inst any, o Op) string  // canonical result
 	probe func(vals []int) []Op        // read-only observation suffix
 	drain func(inst any, rec func(Op)) // drains through the API, recording each call via rec
+	inits [][]Op                       // initial states (nil: derived from the type's first mutators)
 }
 
 func b2s(b bool) string {
@@ -366,6 +367,83 @@ func types() []ctype {
 	}
 }
 
+// cacheExpType: the expiring cache with entries that are EXPIRED BUT NOT YET PURGED when the
+// concurrent calls start. Such entries are created only in the (sequential) initial state:
+// SetX stores with a 1 ns lifetime and returns once the wall clock the cache reads has
+// passed that deadline, so from then on the entry is expired for every later call and a
+// sequential replay sees exactly the same. Everything stored by the concurrent calls never
+// expires, hence no result depends on when a call runs. full adds DeleteExpired/IsExpired.
+func cacheExpType(name string, full bool) ctype {
+	return ctype{
+		name: name, mk: func() any { return cache.New[string, int](cache.NoExpiration, 0) },
+		inits: [][]Op{{{N: "SetX", A: 1, B: 7}}, {{N: "SetX", A: 1, B: 7}, {N: "Set", A: 2, B: 8}}, {{N: "SetX", A: 1, B: 7}, {N: "SetX", A: 2, B: 8}}},
+		ops: func(vals []int) []Op {
+			o := []Op{{N: "Count"}}
+			if full {
+				o = append(o, Op{N: "DeleteExpired"})
+			}
+			for _, v := range vals {
+				if v > 2 {
+					continue
+				}
+				o = append(o, Op{N: "Set", A: v, B: 1}, Op{N: "Get", A: v}, Op{N: "Update", A: v, B: 3}, Op{N: "Delete", A: v})
+				if full {
+					o = append(o, Op{N: "IsExpired", A: v})
+				}
+			}
+			return o
+		},
+		probe: func(vals []int) []Op {
+			o := []Op{{N: "Count"}, {N: "List"}}
+			for _, v := range []int{1, 2} {
+				o = append(o, Op{N: "Get", A: v}, Op{N: "IsExpired", A: v})
+			}
+			return o
+		},
+		apply: func(i any, o Op) string {
+			c := i.(*cache.Cache[string, int])
+			switch o.N {
+			case "SetX":
+				err := c.Set(skeys[o.A], o.B, time.Nanosecond)
+				for t1 := time.Now().UnixNano(); time.Now().UnixNano() <= t1+1; {
+				}
+				return e2s(err)
+			case "Set":
+				return e2s(c.Set(skeys[o.A], o.B, cache.NoExpiration))
+			case "Update":
+				return e2s(c.Update(skeys[o.A], o.B, cache.NoExpiration))
+			case "Get":
+				it, err := c.Get(skeys[o.A])
+				return fmt.Sprint(it.Val(), e2s(err))
+			case "Delete":
+				return e2s(c.Delete(skeys[o.A]))
+			case "DeleteExpired":
+				return e2s(c.DeleteExpired())
+			case "IsExpired":
+				return b2s(c.IsExpired(skeys[o.A]))
+			case "Count":
+				return fmt.Sprint(c.Count())
+			case "List":
+				var ks []string
+				for k, it := range c.List() {
+					ks = append(ks, fmt.Sprintf("%s=%d", k, it.Val()))
+				}
+				sort.Strings(ks)
+				return strings.Join(ks, ",")
+			}
+			panic("bad op")
+		},
+		drain: func(inst any, rec func(Op)) {
+			rec(Op{N: "DeleteExpired"})
+			rec(Op{N: "Count"})
+			for _, k := range []int{1, 2} {
+				rec(Op{N: "Delete", A: k})
+				rec(Op{N: "Count"})
+			}
+		},
+	}
+}
+
 // ---------------------------------------------------------------- cases
 
 type Case struct {
@@ -376,8 +454,12 @@ type Case struct {
 	Runs    int    `json:"runs"`
 }
 
+func allTypes() []ctype {
+	return append(types(), cacheExpType("CacheExpired", false), cacheExpType("CacheCleanup", true))
+}
+
 func findType(name string) *ctype {
-	for _, t := range types() {
+	for _, t := range allTypes() {
 		if t.name == name {
 			tt := t
 			return &tt
@@ -580,11 +662,11 @@ func run(w *core.Worker, c Case, st *stats, seedBase uint64) {
 				st.panicSequential++
 				continue
 			}
-			w.Violation("c02.panic-only-under-concurrency:"+c.Type, fmt.Sprintf("%s: a call panicked in the concurrent run but in no sequential order of the same calls\n%s", c.Type, describe()))
+			w.Violation(sigPrefix(w)+".panic-only-under-concurrency:"+c.Type, fmt.Sprintf("%s: a call panicked in the concurrent run but in no sequential order of the same calls\n%s", c.Type, describe()))
 			return
 		}
 		if hasDead {
-			w.Violation("c02.deadlock:"+c.Type, fmt.Sprintf("%s: logical deadlock (every live thread stuck in a failing acquire loop)\n%s", c.Type, describe()))
+			w.Violation(sigPrefix(w)+".deadlock:"+c.Type, fmt.Sprintf("%s: logical deadlock (every live thread stuck in a failing acquire loop)\n%s", c.Type, describe()))
 			return
 		}
 		r, _ := porcupine.CheckOperationsVerbose(model, hist, 5*time.Second)
@@ -594,14 +676,14 @@ func run(w *core.Worker, c Case, st *stats, seedBase uint64) {
 			var names []string
 			for _, th := range c.Threads {
 				for _, o := range th {
-					if strings.Contains("Push Pop Enqueue Dequeue Clear Delete Upsert Put Set Update", o.N) {
+					if strings.Contains("Push Pop Enqueue Dequeue Clear Delete Upsert Put Set Update DeleteExpired", o.N) {
 						names = append(names, o.N) // the mutators of the program name the class of the witness
 					}
 				}
 			}
 			sort.Strings(names)
 			names = uniq(names)
-			w.Violation("c02.not-linearizable:"+c.Type+":"+strings.Join(names, "+"), fmt.Sprintf("%s: no order of the concurrent calls that respects real-time precedence makes the sequential implementation return these results and leave these contents (init %v)\n%s", c.Type, c.Init, describe()))
+			w.Violation(sigPrefix(w)+".not-linearizable:"+c.Type+":"+strings.Join(names, "+"), fmt.Sprintf("%s: no order of the concurrent calls that respects real-time precedence makes the sequential implementation return these results and leave these contents (init %v)\n%s", c.Type, c.Init, describe()))
 			return
 		case porcupine.Unknown:
 			st.unknown++
@@ -614,6 +696,8 @@ func run(w *core.Worker, c Case, st *stats, seedBase uint64) {
 		w.Sample(map[string]any{"program": c, "distinct_acquisition_orders": len(progSigs)})
 	}
 }
+
+func sigPrefix(w *core.Worker) string { return strings.ToLower(w.R.Prop) }
 
 func uniq(s []string) []string {
 	var o []string
@@ -657,11 +741,22 @@ func panicsSequentially(t *ctype, c Case) bool {
 }
 
 func TestProp(t *testing.T) {
-	r := core.Start(t, "C02")
+	runAll(t, "C02", append(types(), cacheExpType("CacheExpired", false)))
+}
+
+// TestCacheCleanup is the concurrent half of C08 (registered as a variant of that check):
+// Set/Get/Update/Delete/Count/DeleteExpired/IsExpired racing on a cache that starts with
+// expired-but-unpurged entries must be explainable by a sequential order - in particular a
+// purge never removes an entry that a racing Set/Update has just made live.
+func TestCacheCleanup(t *testing.T) {
+	runAll(t, "C08", []ctype{cacheExpType("CacheCleanup", true)})
+}
+
+func runAll(t *testing.T, prop string, all []ctype) {
+	r := core.Start(t, prop)
 	defer r.Finish()
 	r.Rule("case = one concurrent program (2 threads x <=2 calls, or 3 threads x 1 call, over a type's single-element operations and a 2-value alphabet (thorough: 3), small initial states, plus seeded larger programs of 3 threads x 2-3 calls and 4 threads x 2 calls) executed `runs` times under the tracked sync shim (seeded yields/µs-sleeps between critical sections, never inside one); every execution yields a history = call/return stamps from one atomic counter + results, extended by a sequential observation suffix (size, every key, listing, drain); each history is checked with porcupine against the implementation itself replayed sequentially; distinct = program; non-trivial = every program (>= 2 threads); evidence counts histories, distinct histories, distinct lock-acquisition orders, porcupine verdicts")
 
-	all := types()
 	si, sn := r.Shard()
 	w := r.NewWorker("linearizability")
 	defer r.Done(w)
@@ -706,7 +801,9 @@ func TestProp(t *testing.T) {
 				mut = append(mut, o)
 			}
 		}
-		if len(mut) > 0 {
+		if ct.inits != nil {
+			inits = ct.inits
+		} else if len(mut) > 0 {
 			inits = append(inits, []Op{mut[0]})
 			if len(mut) > 1 {
 				inits = append(inits, []Op{mut[0], mut[len(mut)-1]})
@@ -714,7 +811,27 @@ func TestProp(t *testing.T) {
 		}
 		var threads [][]Op
 		seq.Enum(alpha, 2, func(s []Op) { threads = append(threads, s) })
+		// the cleanup type is the concurrent half of C08: its quick tier keeps the programs in
+		// which a purge or an expiry query takes part (the rest is the CacheExpired type of C02)
+		cleanupOnly := ct.name == "CacheCleanup" && r.Quick()
 		emit := func(c Case) {
+			if cleanupOnly {
+				has := false
+				for _, th := range c.Threads {
+					for _, o := range th {
+						if o.N == "DeleteExpired" || o.N == "IsExpired" {
+							has = true
+						}
+					}
+				}
+				if !has {
+					return
+				}
+				c.Runs = (c.Runs + 1) / 2
+			}
+			if ct.name == "CacheExpired" && r.Quick() {
+				c.Runs = (c.Runs + 1) / 2 // the plain Cache type runs the same calls on live entries at full count
+			}
 			pi++
 			if r.Saturated() || pi%sn != si {
 				return
@@ -745,8 +862,12 @@ func TestProp(t *testing.T) {
 			if nt == 4 {
 				maxCalls = 2
 			}
-			for i := rng.Intn(3); i > 0 && len(mut) > 0; i-- {
-				c.Init = append(c.Init, mut[rng.Intn(len(mut))])
+			if ct.inits != nil {
+				c.Init = ct.inits[rng.Intn(len(ct.inits))]
+			} else {
+				for i := rng.Intn(3); i > 0 && len(mut) > 0; i-- {
+					c.Init = append(c.Init, mut[rng.Intn(len(mut))])
+				}
 			}
 			for i := 0; i < nt; i++ {
 				var th []Op
